@@ -682,7 +682,11 @@ func (w *keyWorld) keyResponse(r *gen.Rand, server string, validUntil int64, fau
 		kr.keys["ed25519:k2"] = id2.Pub
 		kr.selfOK = false
 	}
-	obj := ref.O("server_name", ref.S(name), "valid_until_ts", ref.I(validUntil), "verify_keys", vk,
+	vuValue := ref.I(validUntil)
+	if c12ValidUntilLiteral != "" {
+		vuValue = ref.NumLit(c12ValidUntilLiteral) // timestamps are unsigned 64-bit: the upper half does not fit an int64
+	}
+	obj := ref.O("server_name", ref.S(name), "valid_until_ts", vuValue, "verify_keys", vk,
 		"old_verify_keys", ref.O("ed25519:old", ref.O("key", ref.S(spec.Base64Bytes(id2.Pub).Encode()), "expired_ts", ref.I(1234567))))
 	kr.old["ed25519:old"] = 1234567
 	msg := gen.Plain().Bytes(obj)
@@ -760,6 +764,9 @@ func (s *scriptedKeyClient) LookupServerKeys(ctx context.Context, server spec.Se
 	return nil, errors.New("no route")
 }
 
+// c12ValidUntilLiteral, when set, is the valid_until_ts literal keyResponse writes instead of its int64 argument.
+var c12ValidUntilLiteral string
+
 func c12KeyResponses(c *mon.Ctx, w *keyWorld, r *gen.Rand) {
 	faults := []string{"", "wrong-name", "unsigned", "signed-by-other-key", "signed-under-other-name", "short-key", "no-ed25519-key", "two-keys", "extra-unsigned-key"}
 	now := time.UnixMilli(1800000000000)
@@ -803,6 +810,31 @@ func c12KeyResponses(c *mon.Ctx, w *keyWorld, r *gen.Rand) {
 				}
 			})
 		}
+	}
+	// valid_until_ts in the upper half of the unsigned 64-bit range: in the future, whatever "now" is
+	for _, lit := range []string{"9223372036854775807", "9223372036854775808", "18446744073709551615"} {
+		if c.Shard != 0 {
+			continue
+		}
+		c12ValidUntilLiteral = lit
+		kr := w.keyResponse(r, "a.example", 0, "", nil, "")
+		c12ValidUntilLiteral = ""
+		c.Case("checkkeys::valid_until="+lit, map[string]any{"valid_until_ts": lit, "response": string(kr.json)}, func() {
+			c.Nontrivial("checkkeys|huge|" + lit)
+			sk, err := parseServerKeys(kr.json)
+			if err != nil {
+				c.Failf("checkkeys:parse", "%v", err)
+				return
+			}
+			for _, at := range []time.Time{now, time.Now(), time.Unix(0, 0)} {
+				checks, _ := gmsl.CheckKeys("a.example", at, sk)
+				c.Count("checkkeys_calls")
+				if !checks.AllChecksOK || !checks.FutureValidUntilTS {
+					c.Failf("checkkeys:rejects:valid-until-beyond-int64", "CheckKeys at %d says a correctly self-signed response with valid_until_ts %s is not valid in the future (FutureValidUntilTS=%v)", at.UnixMilli(), lit, checks.FutureValidUntilTS)
+					return
+				}
+			}
+		})
 	}
 	// (d) fetchers
 	notary := gen.NewIdentity(r, "notary.example", "ed25519:n1")
